@@ -464,6 +464,11 @@ def x7_shims(text, log):
         return "vx_join_semi(%s, %s)" % (m.group(1), m.group(2))
     text = re.sub(r"\bformat!\(\"\{\};\{\}\", ((?:[a-z_][a-z0-9_]*\.into\(\))|(?:vx_into_string\([a-z_][a-z0-9_]*\))), ([a-z_][a-z0-9_]*)\)", joinsemi, text)
 
+    def cchar(m):
+        log.add("X7:vx_contains_char")
+        return "vx_contains_char(%s, %s)" % (m.group(1), m.group(2))
+    text = re.sub(r"\b(value)\.contains\(('(?:\\.|[^'\\])')\)", cchar, text)
+
     def tget(m):
         log.add("X7:vx_tables_get")
         return "vx_tables_get(%s, %s)" % (m.group(1), m.group(2))
